@@ -29,7 +29,11 @@ def _fmt_number(rng, v, style):
             e = 0
         return "%s0.%sE%+03d" % (sign, digits, e)
     if style == "odd":  # legal Fortran-style spellings: +1.5  .5  -.25  3.  1.5E+002  1.5D02
-        kind = rng.choice(["plus", "nolead", "traildot", "exp3", "expnosign", "plain"])
+        kind = rng.choice(["plus", "nolead", "traildot", "exp3", "expnosign", "plain", "long", "negzero"])
+        if kind == "long":  # more digits than a double holds
+            return "%.24f" % v if abs(v) < 1e6 else "%.7f" % v
+        if kind == "negzero" and v == 0.0:
+            return "-0.0000000"
         if kind == "plus":
             tok = "%.6f" % abs(v)
             return ("+" if v >= 0 else "-") + tok
